@@ -437,13 +437,13 @@ def py_decode(tokens, clk, codes):
     if k == 't':
       closed.append((now, dict(st))); now = v
     else:
-      if v[0] in '01': st[v[1:]] = int(v[0])
+      if v[0] in '01': st[v[1:]] = (1, int(v[0]))
       elif v[0] == 'b':
         digits, _, code = v[1:].partition(' ')
-        st[code] = int(digits, 2) if digits and set(digits) <= {'0', '1'} else None
+        st[code] = (len(digits), int(digits, 2)) if digits and set(digits) <= {'0', '1'} else None
       else: st[v] = None
-  rows = [[s.get(c) for c in codes] for (t, s) in closed if t >= 0 and s.get(clk) == 1]
-  wave = [(t, s.get(clk)) for (t, s) in closed] + [(now, st.get(clk))]
+  rows = [[s.get(c) for c in codes] for (t, s) in closed if t >= 0 and s.get(clk) == (1, 1)]
+  wave = [(t, (s.get(clk) or (0, None))[1]) for (t, s) in closed] + [(now, (st.get(clk) or (0, None))[1])]
   return rows, wave
 
 def cstr(s):
@@ -481,12 +481,15 @@ def analyse(res):
     mism.append({'what': 'number of cycles', 'vcd': len(rows), 'simulated': len(samples)})
   for t, (r, srow) in enumerate(zip(rows, samples)):
     for j, i in enumerate(nonclk):
-      if r[j] != srow[i]:
-        mism.append({'signal': names[i], 'cycle': t, 'simulator': srow[i], 'vcd': r[j], 'code': codes[i]})
+      if r[j] is None or r[j][1] != srow[i] or not (0 < r[j][0] <= widths[i]):
+        mism.append({'signal': names[i], 'cycle': t, 'width': widths[i], 'simulator': srow[i],
+                     'vcd(digits,value)': r[j], 'code': codes[i]})
   n = len(samples)
   expw = [(-1, 0)] + [x for t in range(n) for x in ((100 * t, 1), (100 * t + 50, 0))] + [(100 * n, 1)]
   if wave != expw:
-    mism.append({'what': 'clock', 'read_back': wave[:8], 'expected': expw[:8]})
+    d = next((k for k, (a, b) in enumerate(zip(wave, expw)) if a != b), min(len(wave), len(expw)))
+    mism.append({'what': 'clock (time, value) as read back', 'first_difference_at': d,
+                 'read_back': wave[max(0, d - 2):d + 3], 'expected': expw[max(0, d - 2):d + 3]})
   out['mismatches'] = mism
   # ---- text wave
   tw, twm = res['textwave'], []
